@@ -588,6 +588,12 @@ theorem step_inv (hcs : CompactionSound ∨ True) {s s' : State} {m : Spec} (a :
         have := hr k r hrd
         exact ⟨fun h0 => memGet_drop_none _ (this.1 h0), this.2⟩
       · cases hstep
+  | flushAbort =>
+    simp only [step] at hstep
+    split at hstep
+    · cases hstep
+    · cases hstep
+      exact ⟨⟨h.mems_ne, h.levels_ne, h.sorted, h.hit, h.seqBound, h.newer, h.deep⟩, hr⟩
   | compact rm lvl add =>
     simp only [step] at hstep
     split at hstep
